@@ -1,11 +1,10 @@
-import OvniModel.Lemmas.FsFault
-import OvniModel.Lemmas.FsWitness
-import OvniModel.Props.C09
+import OvniModel.Lemmas.FsSpec
 
 /-!
 # C10 — I/O faults are never silent
 
-Model: `OvniModel/Rt/Fs.lean`, `faultAt`: the `i`-th libc call of the run fails
+Model: `OvniModel/Rt/Fs.lean` (statement definitions `Complete`, `CopyExists`, `NotSilent` in
+`OvniModel/Rt/FsSpec.lean`), `faultAt`: the `i`-th libc call of the run fails
 (errno class, or short count for write/fwrite/fputs), then the runtime does
 what the C code does after that failure (`cont`).  Outcome: `die fs`
 (abort()) or `returned fs`.
@@ -27,84 +26,6 @@ what the C code does after that failure (`cont`).  Outcome: `die fs`
 set_option linter.unusedSimpArgs false
 namespace Ovni.Props.C10
 open Ovni.Rt Ovni.Rt.Fs
-open Ovni.Props.C09 (WellFormed ReaddirOrder crashState)
-
-/-- The final trace of thread `t` is complete: its stream.obs holds every byte
-    the thread flushed, its stream.json is whole and says finished. -/
-def Complete (C : Codec) (t : ThreadProg) (s : Fs) : Prop :=
-  s.get (.file .fin t.tid .obs) = some (.file t.obsBytes []) ∧
-  s.get (.file .fin t.tid .json) = some (.file (C.ser ⟨true, t.metaF⟩) []) ∧
-  s.flushed t.tid = t.obsBytes
-
-/-- Some tree still has a stream.obs with every byte thread `tid` flushed. -/
-def CopyExists (s : Fs) (tid : Nat) : Prop :=
-  s.flushed tid = [] ∨ ∃ r d pn, s.get (.file r tid .obs) = some (.file d pn) ∧ d = s.flushed tid
-
-/-- The fault was not silent. -/
-def NotSilent (C : Codec) (p : Prog) : Outcome → Prop
-  | .die s => ∀ t ∈ p.threads, CopyExists s t.tid
-  | .returned s => ∀ t ∈ p.threads, t.free = true → Complete C t s ∧ CopyExists s t.tid
-  | .killed _ => False
-
-theorem copyExists_iff (s : Fs) (tid : Nat) : CopyExists s tid ↔ NoLoss (viewOf s tid) := by
-  unfold CopyExists NoLoss
-  rw [Fs.flushed_eq]
-  constructor
-  · rintro (h | ⟨r, d, pn, h1, h2⟩)
-    · exact Or.inl h
-    · exact Or.inr ⟨r, d, pn, by cases r <;> exact h1, h2⟩
-  · rintro (h | ⟨r, d, pn, h1, h2⟩)
-    · exact Or.inl h
-    · exact Or.inr ⟨r, d, pn, by cases r <;> exact h1, h2⟩
-
-/-- After every prefix of the fault-free run a complete copy exists. -/
-theorem copy_at_crash (C : Codec) (p : Prog) (hwf : WellFormed p) (hm : p.tmpMode = false ∨ ReaddirOrder p)
-    (t : ThreadProg) (ht : t ∈ p.threads) (k : Nat) : CopyExists (crashState C p k) t.tid := by
-  rw [copyExists_iff]
-  obtain ⟨k', hk'⟩ := view_at_crash C.ser p t ht hwf k
-  unfold crashState
-  rw [hk']
-  cases hp : p.tmpMode with
-  | false => exact ((thread_direct C p t hp _ rfl).1 k').noLoss
-  | true =>
-    rcases hm with hm | hm
-    · rw [hp] at hm; cases hm
-    · exact (thread_tmp_noloss C p t hp (Witness.streamEntries_of_perm hm) _ rfl).1 k'
-
-/-- The fault-free run leaves every freed thread complete. -/
-theorem complete_at_end (C : Codec) (p : Prog) (hwf : WellFormed p) (hm : p.tmpMode = false ∨ ReaddirOrder p)
-    (t : ThreadProg) (ht : t ∈ p.threads) (hf : t.free = true) :
-    Complete C t (run p.init (ops (calls C.ser p))) := by
-  have hv := view_at_end C.ser p t ht hwf
-  have hd : vrun t.tid View.empty (ops (threadCalls C.ser p t)) = doneView C t := by
-    cases hp : p.tmpMode with
-    | false => exact (thread_direct C p t hp _ rfl).2 hf
-    | true =>
-      rcases hm with hm | hm
-      · rw [hp] at hm; cases hm
-      · exact (thread_tmp_noloss C p t hp (Witness.streamEntries_of_perm hm) _ rfl).2 hf
-  rw [hd] at hv
-  have h1 : (run p.init (ops (calls C.ser p))).get (.file .fin t.tid .obs) = F t.obsBytes := congrArg View.ofn hv
-  have h2 : (run p.init (ops (calls C.ser p))).get (.file .fin t.tid .json) = F (C.ser ⟨true, t.metaF⟩) :=
-    congrArg View.jf hv
-  have h3 : (run p.init (ops (calls C.ser p))).get (.ghost t.tid) = F t.obsBytes := congrArg View.g hv
-  exact ⟨h1, h2, by rw [Fs.flushed_eq, h3]; rfl⟩
-
-theorem complete_copy {C : Codec} {t : ThreadProg} {s : Fs} (h : Complete C t s) : CopyExists s t.tid :=
-  Or.inr ⟨.fin, _, [], h.1, h.2.2.symm⟩
-
-/-- `Complete` only reads the final-tree entries and the ghost log. -/
-theorem complete_congr {C : Codec} {t : ThreadProg} {s s' : Fs}
-    (h : ∀ q, q.isLeaf = true → (∀ tid n, q ≠ .file .tmp tid n) → s'.get q = s.get q)
-    (hc : Complete C t s) : Complete C t s' := by
-  refine ⟨?_, ?_, ?_⟩
-  · rw [h _ rfl (by simp)]; exact hc.1
-  · rw [h _ rfl (by simp)]; exact hc.2.1
-  · rw [Fs.flushed_eq, h _ rfl (by simp), ← Fs.flushed_eq]; exact hc.2.2
-
-theorem returned_ok {C : Codec} {p : Prog} {s : Fs}
-    (h : ∀ t ∈ p.threads, t.free = true → Complete C t s) : NotSilent C p (.returned s) :=
-  fun t ht hf => ⟨h t ht hf, complete_copy (h t ht hf)⟩
 
 /-! ### C10 -/
 
@@ -242,6 +163,26 @@ theorem single_fault_not_silent_partial (C : Codec) (p : Prog) (hwf : WellFormed
       rw [hop]; simp only [touch, List.mem_cons, List.not_mem_nil, or_false]
       intro e; subst e; rw [hq] at hx; cases hx
 
+/-- Direct mode (no OVNI_TMPDIR), the code as it stands: every single fault
+    on any call other than `close(streamfd)` aborts or leaves a complete trace. -/
+theorem single_fault_not_silent_direct (C : Codec) (p : Prog) (hwf : WellFormed p) (hp : p.tmpMode = false)
+    (i : Nat) (f : Fault) (kept : Nat)
+    (hclose : ∀ c, (calls C.ser p)[i]? = some c → c.site ≠ .closeStream) :
+    NotSilent C p (faultAt C.ser p i f kept) := by
+  apply single_fault_not_silent_partial C p hwf (Or.inl hp)
+  intro c hc
+  cases hu : c.site.unchecked with
+  | false => rfl
+  | true => exact absurd (direct_unchecked C.ser p hp c (List.mem_of_getElem? hc) hu) (hclose c hc)
+
+/-- Without faults, no point of the run — in either mode, for either readdir
+    order — is without a complete copy of what each thread has flushed
+    (`remove(src)` only ever follows the completed copy). -/
+theorem fault_free_run_keeps_a_complete_copy (C : Codec) (p : Prog) (hwf : WellFormed p)
+    (hm : p.tmpMode = false ∨ ReaddirOrder p) (k : Nat) :
+    ∀ t ∈ p.threads, CopyExists (crashState C p k) t.tid :=
+  fun t ht => copy_at_crash C p hwf hm t ht k
+
 /-! ### the code as it stands: the full statement is false
 
 -- OPEN: theorem single_fault_not_silent (C p) : WellFormed p → (p.tmpMode = false ∨ ReaddirOrder p) →
@@ -252,51 +193,6 @@ these results (abort, never unlink after a failed copy) the sites leave
 `Site.unchecked` and the `_partial` theorem is the full one. -/
 
 open Ovni.Rt.Fs.Witness
-
-def Outcome.isReturned : Outcome → Bool
-  | .returned _ => true
-  | _ => false
-
-theorem notSilent_returned {C : Codec} {p : Prog} {o : Outcome} (hr : Outcome.isReturned o = true)
-    (h : NotSilent C p o) : ∀ t ∈ p.threads, t.free = true → Complete C t o.fs ∧ CopyExists o.fs t.tid := by
-  cases o with
-  | returned s => exact h
-  | die s => cases hr
-  | killed s => cases hr
-
-instance (C : Codec) (t : ThreadProg) (s : Fs) : Decidable (Complete C t s) := by
-  unfold Complete; infer_instance
-
-def copyExistsB (s : Fs) (tid : Nat) : Bool :=
-  s.flushed tid == [] ||
-    [Root.tmp, Root.fin].any fun r =>
-      match s.get (.file r tid .obs) with
-      | some (.file d _) => d == s.flushed tid
-      | _ => false
-
-theorem copyExists_iff_B (s : Fs) (tid : Nat) : CopyExists s tid ↔ copyExistsB s tid = true := by
-  unfold CopyExists copyExistsB
-  simp only [Bool.or_eq_true, beq_iff_eq, List.any_cons, List.any_nil, Bool.or_false]
-  constructor
-  · rintro (h | ⟨r, d, pn, h1, h2⟩)
-    · exact Or.inl h
-    · right
-      cases r
-      · left; rw [h1]; simpa using h2
-      · right; rw [h1]; simpa using h2
-  · rintro (h | h | h)
-    · exact Or.inl h
-    · right
-      split at h
-      · rename_i d pn hg; exact ⟨.tmp, d, pn, hg, by simpa using h⟩
-      · cases h
-    · right
-      split at h
-      · rename_i d pn hg; exact ⟨.fin, d, pn, hg, by simpa using h⟩
-      · cases h
-
-instance (s : Fs) (tid : Nat) : Decidable (CopyExists s tid) :=
-  decidable_of_iff _ (copyExists_iff_B s tid).symm
 
 /-- Key `close-streamfd-unchecked` (direct mode): `close(streamfd)` reports a
     deferred write error, `ovni_thread_free` ignores it and returns; the final
